@@ -1,8 +1,8 @@
 package rules
 
 import (
-	"go/types"
 	"go/token"
+	"go/types"
 	"strings"
 
 	"golang.org/x/tools/go/ssa"
@@ -128,7 +128,10 @@ func (c *Ctx) adp(which map[string]bool) {
 		for _, b := range ad.Blocks {
 			for _, ins := range b.Instrs {
 				phi, ok := ins.(*ssa.Phi)
-				if !ok || phi.Type().String() != "uint64" {
+				if !ok {
+					continue
+				}
+				if b, isB := phi.Type().Underlying().(*types.Basic); !isB || b.Kind() != types.Uint64 {
 					continue
 				}
 				for _, e := range phi.Edges {
@@ -1013,6 +1016,14 @@ func (c *Ctx) dependsOnDecodeSeq(v ssa.Value, dec *ssa.Function, depth int) bool
 		return false
 	}
 	switch x := v.(type) {
+	case *ssa.ChangeType: // a named type for the sequence number
+		return c.dependsOnDecodeSeq(x.X, dec, depth+1)
+	case *ssa.Convert:
+		if fb, ok1 := intBits(x.X.Type()); ok1 {
+			if tb, ok2 := intBits(x.Type()); ok2 && tb >= fb {
+				return c.dependsOnDecodeSeq(x.X, dec, depth+1)
+			}
+		}
 	case *ssa.Phi:
 		for _, e := range x.Edges {
 			if c.dependsOnDecodeSeq(e, dec, depth+1) {
